@@ -38,6 +38,9 @@ def main():
         print(f"HARNESS-ERROR property={prop}: cannot import {modname}")
         return 2
 
+    import logging
+
+    logging.getLogger("watchdog").setLevel(logging.CRITICAL + 1)
     if args.replay:
         with open(args.replay) as f:
             body = json.load(f)
